@@ -119,7 +119,45 @@ pub fn run_scenario(case: &DispatchCase, require_faithful: bool) -> Result<Dispa
     {
         let snaps = snaps.clone();
         let fin = fin.clone();
+        // livelock detection: run_dispatch is a deterministic loop over the state the observer
+        // is shown; if that state (the cheap fingerprint first, then the complete serialised
+        // train states and authorities) stays identical while the same train is selected
+        // again and again, the loop can never end.  The observer then unwinds out of
+        // run_dispatch, which is reported as a violation of "dispatch terminates" — a
+        // deterministic prediction, not a time limit
+        let mut rep: (u64, usize, Option<String>, usize) = (0, 0, None, 0); // cheap hash, cheap repeats, full image, full repeats
         set_dispatch_observer(Box::new(move |s| {
+            if s.phase != DispatchPhase::Final {
+                let mut h = 0xcbf29ce484222325u64 ^ s.train_idx as u64;
+                for auths in s.link_disp_auths.iter() {
+                    h = (h ^ auths.len() as u64).wrapping_mul(0x100000001b3);
+                    for a in auths.iter() {
+                        for x in [a.arrive_entry.value, a.arrive_exit.value, a.clear_entry.value, a.clear_exit.value, a.offset_front.value, a.offset_back.value] {
+                            h = (h ^ x.to_bits()).wrapping_mul(0x100000001b3);
+                        }
+                    }
+                }
+                for t in s.links_blocked.iter() {
+                    h = (h ^ t.map(|x| x.get() as u64).unwrap_or(0)).wrapping_mul(0x100000001b3);
+                }
+                if h == rep.0 {
+                    rep.1 += 1;
+                } else {
+                    rep = (h, 0, None, 0);
+                }
+                if rep.1 >= 200 {
+                    let img = serde_json::to_string(s.train_disps).unwrap_or_default();
+                    if rep.2.as_deref() == Some(img.as_str()) {
+                        rep.3 += 1;
+                    } else {
+                        rep.2 = Some(img);
+                        rep.3 = 0;
+                    }
+                    if rep.3 >= 300 {
+                        panic!("HARNESS-LIVELOCK: the dispatch loop selected train {} {} times in a row without any change of state", s.train_idx, rep.1);
+                    }
+                }
+            }
             let mut holders = vec![];
             let mut n_auths = 0;
             for (k, auths) in s.link_disp_auths.iter().enumerate() {
@@ -202,7 +240,40 @@ fn dir_labels(case: &DispatchCase, run: &DispatchRun, cx: &mut Ctx) {
 // ---------------------------------------------------------------------------------------
 // C04
 
+/// Root-cause class for one family of symptoms: the dispatcher reads, per segment, only the
+/// newest authority (`.last()`), which is right as long as trains leave a segment in the order
+/// they entered it.  A train whose destination lies mid-line ends its run inside a segment
+/// while a train ahead of it may still be there; its (released) authority then hides the
+/// older one, the segment is published as free, and opposing trains are admitted.  Every
+/// occupancy symptom in a scenario that contains such a train is filed under this class.
+fn mid_line_class(case: &DispatchCase, cx: &mut Ctx) {
+    if !case.trains.iter().any(|t| t.to.is_some()) {
+        return;
+    }
+    const SYMPTOMS: [&str; 9] = [
+        "C04|snapshot|",
+        "C04|plan|opposing-trains-overlap-on-one-segment",
+        "C04|plan|mutually-exclusive-segments-overlap",
+        "C04|plan|order-changed-inside-a-segment",
+        "C04|plan|headway-below-configured-spacing",
+        "C04|timed-paths|",
+        "C05|panic|advance_rewind:The back of train",
+        "C05|panic|advance_rewind:The front of train",
+        "C05|plan|arrival-time-not-finite",
+    ];
+    for f in cx.fails.iter_mut() {
+        if SYMPTOMS.iter().any(|s| f.signature.starts_with(s)) && !f.signature.ends_with(":a-train-ends-its-run-mid-line") {
+            f.signature.push_str(":a-train-ends-its-run-mid-line");
+        }
+    }
+}
+
 pub fn check_c04(case: &DispatchCase, cx: &mut Ctx) {
+    check_c04_inner(case, cx);
+    mid_line_class(case, cx);
+}
+
+fn check_c04_inner(case: &DispatchCase, cx: &mut Ctx) {
     let run = match run_scenario(case, true) {
         Ok(r) => r,
         Err(e) => {
@@ -343,6 +414,11 @@ pub fn check_c04(case: &DispatchCase, cx: &mut Ctx) {
 // C05
 
 pub fn check_c05(case: &DispatchCase, cx: &mut Ctx) {
+    check_c05_inner(case, cx);
+    mid_line_class(case, cx);
+}
+
+fn check_c05_inner(case: &DispatchCase, cx: &mut Ctx) {
     let run = match run_scenario(case, true) {
         Ok(r) => r,
         Err(e) => {
@@ -353,7 +429,11 @@ pub fn check_c05(case: &DispatchCase, cx: &mut Ctx) {
     dir_labels(case, &run, cx);
     let links = &run.built.corridor.links;
     if let Some(p) = &run.panic {
-        cx.fail(format!("C05|panic|{}", p.class()), format!("run_dispatch unwound: {} at {}:{}", p.msg, p.file, p.line));
+        if p.msg.contains("HARNESS-LIVELOCK") {
+            cx.fail("C05|hang|dispatch-loop-repeats-an-identical-state", p.msg.clone());
+        } else {
+            cx.fail(format!("C05|panic|{}", p.class()), format!("run_dispatch unwound: {} at {}:{}", p.msg, p.file, p.line));
+        }
         return;
     }
     match &run.plan {
@@ -508,7 +588,7 @@ macro_rules! disp_prop {
         impl $name {
             fn gen(g: &mut Gen, tier: Tier) -> DispatchCase {
                 let max_trains = if tier == Tier::Thorough { 12 } else { 10 };
-                gen_dispatch_case(g, max_trains, &CorridorOpts { p_lockout: 0.25, p_branch: 0.3, ..Default::default() })
+                gen_dispatch_case(g, max_trains, &CorridorOpts { p_lockout: 0.25, p_branch: 0.3, p_short_ends: 0.0, ..Default::default() })
             }
             fn check(c: &DispatchCase, cx: &mut Ctx) {
                 $check(c, cx)
